@@ -12,6 +12,7 @@ finished text with `ast` and is what the harness uses as the executable guard.
 from __future__ import annotations
 
 import ast
+from collections import Counter
 import keyword
 import re
 
@@ -54,20 +55,48 @@ def gen_printable(rng, maxlen=12):
     return s
 
 
+def _py_ctl(rng, ch: str) -> str:
+    """one of the Python spellings of a control character inside a (non-raw) string literal; every spelling has a fixed
+    number of digits, so that a digit that follows is not absorbed"""
+    o = ord(ch)
+    named = {"\n": "\\n", "\r": "\\r", "\t": "\\t", "\a": "\\a", "\b": "\\b", "\f": "\\f", "\v": "\\v"}
+    opts = ["\\x%02x" % o, "\\%03o" % o, "\\u%04x" % o] if o < 0x100 else ["\\u%04x" % o]
+    if ch in named:
+        opts += [named[ch]] * 3
+    return rng.choice(opts)
+
+
+def _is_ctl(ch: str) -> bool:
+    """must be written as an escape in the Python source: the C0 controls and DEL, and the other characters str.splitlines() cuts
+    at (NEL, LS, PS) - the transpiler reads the script line by line and silently drops the pieces (C07's business)"""
+    return ord(ch) < 0x20 or ord(ch) == 0x7F or ch in "\x85\u2028\u2029"
+
+
+def _py_body(rng, s: str, quote: str, braces=False) -> str:
+    out = []
+    for ch in s:
+        if ch == "\\":
+            out.append("\\\\")
+        elif ch == quote:
+            out.append("\\" + quote)
+        elif _is_ctl(ch):
+            out.append(_py_ctl(rng, ch))
+        elif braces and ch in "{}":
+            out.append(ch * 2)
+        else:
+            out.append(ch)
+    return "".join(out)
+
+
 def py_literal(rng, s: str, allow_fprefix=False) -> str:
-    """render the value s as a Python string literal (value-preserving); several spellings"""
+    """render the value s as a Python string literal (value-preserving); several spellings; control characters are written
+    as escapes (a raw line end cannot stand inside a one-line literal)"""
     style = rng.randint(0, 3)
-    if style == 0:
-        body = s.replace("\\", "\\\\").replace('"', '\\"')
-        return '"' + body + '"'
     if style == 1:
-        body = s.replace("\\", "\\\\").replace("'", "\\'")
-        return "'" + body + "'"
+        return "'" + _py_body(rng, s, "'") + "'"
     if style == 2:
         return repr(s)
-    # double quotes, but only escaping what must be escaped; quote chars of the other kind raw
-    body = s.replace("\\", "\\\\").replace('"', '\\"')
-    return '"' + body + '"'
+    return '"' + _py_body(rng, s, '"') + '"'
 
 
 def fstring_literal(rng, parts) -> str:
@@ -75,10 +104,24 @@ def fstring_literal(rng, parts) -> str:
     out = []
     for kind, val in parts:
         if kind == "s":
-            out.append(val.replace("\\", "\\\\").replace('"', '\\"').replace("{", "{{").replace("}", "}}"))
+            out.append(_py_body(rng, val, '"', braces=True))
         else:
             out.append("{" + val + "}")
     return 'f"' + "".join(out) + '"'
+
+
+def gen_any_string(rng, maxlen=12):
+    """any string: the printable generator with control characters (0x00..0x1f, 0x7f; line ends and tab most often) mixed in,
+    often right before a digit / hex digit / backslash / quote"""
+    s = list(gen_printable(rng, maxlen))
+    for _ in range(rng.choice([0, 1, 1, 2, 3])):
+        q = rng.random()
+        ch = rng.choice("\n\r\t") if q < 0.5 else (chr(rng.randrange(0, 32)) if q < 0.9 else "\x7f")
+        k = rng.randint(0, len(s))
+        s.insert(k, ch)
+        if rng.random() < 0.4:
+            s.insert(k + 1, rng.choice("0178afx\\\"n"))
+    return "".join(s)
 
 
 # ----------------------------------------------------------------------------- names
@@ -284,7 +327,7 @@ def gen_float(env, depth):
         choices += ["var"] * 4
     if depth > 0:
         choices += ["bin", "bin", "cast", "div", "ifexp"]
-        if env.devs.get("Ultrasonic") and env.in_fn is None:
+        if env.devs.get("Ultrasonic"):           # also inside user functions (prototypes: fix of F-C06-fn-uses-ultrasonic)
             choices += ["ultra", "ultra"]
         if env.devs.get("Servo"):
             choices += ["servo"]
@@ -634,8 +677,6 @@ def dev_stmt(env, kind, name):
         ms = ["write", "line", "message", "clear", "display", "backlight", "glyph", "progress", "animate"]
         if o.get("backlight_pin"):
             ms.append("brightness")
-        if env.in_fn is not None:
-            ms.remove("animate")      # listed finding F-C06-lcd-animate-in-function
         m = rng.choice(ms)
         env.feat("LCD." + m)
         txt = lambda: gen_str(env, 1)[0]
@@ -1128,7 +1169,7 @@ def declare_device(env, kind, pins, iface=None):
 
 
 # ----------------------------------------------------------------------------- functions
-def gen_function(env):
+def gen_function(env, numeric_only=False):
     rng = env.rng
     name = env.fresh(FN_POOL)
     nparams = rng.choice([0, 1, 1, 2, 3])
@@ -1146,7 +1187,7 @@ def gen_function(env):
         ann = {"int": "int", "float": "float", "bool": "bool", "String": "str"}[t]
         # unannotated parameters are typed int by the transpiler: only annotate-free when int
         sig.append(f"{pn}: {ann}" if (annotate or t != "int") else pn)
-    ret = rng.choice([None, None, "int", "float", "bool", "String"])
+    ret = rng.choice([None, None, "int", "float", "bool", "String"] if not numeric_only else [None, "int", "int", "int"])
     prelude = []
     if not ret and rng.random() < 0.3:
         c, _ = gen_bool(fe, 1)
@@ -1443,9 +1484,18 @@ def gen_script(rng, opts=None):
         sec_fns += gen_poly_function(env, (opts.get("poly_kinds") or [None] * npoly)[j % max(1, len(opts.get("poly_kinds") or [None]))])
     if npoly and any(i["kind"] == "rebind" for i in env.poly.values()) and rng.random() < 0.5:
         sec_fns += gen_poly_function(env, "via")
-    # functions
-    for _ in range(rng.choice([0, 1, 1, 2, 3])):
-        sec_fns += gen_function(env)
+    # functions; each may call the ones generated before it.  In "forward" mode the definitions are written in REVERSE order, so
+    # that every such call is a call of a function defined further down (prototypes: fix of F-C06-fn-forward-call); a function
+    # called forward returns an int or nothing (guard of F-C06-fn-forward-call-return-type)
+    forward = opts.get("forward", rng.random() < 0.3)
+    blocks = []
+    for _ in range(rng.choice([0, 1, 1, 2, 3]) if not opts.get("forward") else rng.choice([2, 3, 3, 4])):
+        blocks.append(gen_function(env, numeric_only=forward))
+    if forward and len(blocks) > 1:
+        blocks.reverse()
+        env.feat("functions defined in reverse order (forward calls)")
+    for b in blocks:
+        sec_fns += b
     if layout == "fns_before_devices":
         lines += sec_globals + sec_fns + sec_devs
         if sec_fns and sec_devs:
@@ -1508,12 +1558,15 @@ def shapes_of(src: str):
     order = {f.name: i for i, f in enumerate(fdefs)}
     for f in fdefs:
         for n in ast.walk(f):
-            if isinstance(n, ast.Call) and isinstance(n.func, ast.Attribute) and n.func.attr == "measure_distance":
-                out.add("fn-uses-ultrasonic")
-            if isinstance(n, ast.Call) and isinstance(n.func, ast.Attribute) and n.func.attr == "animate":
-                out.add("fn-lcd-animate")
-            if isinstance(n, ast.Call) and isinstance(n.func, ast.Name) and n.func.id in order and order[n.func.id] > order[f.name]:
-                out.add("fn-forward-call")
+            pass
+    # a call of a function defined further down whose result is not evidently an int or nothing: the caller is translated before
+    # the callee's return type is known and treats the result as int (F-C06-fn-forward-call-return-type)
+    numeric = _evidently_numeric_functions(tree, fdefs)
+    for f in fdefs:
+        for n in ast.walk(f):
+            if isinstance(n, ast.Call) and isinstance(n.func, ast.Name) and n.func.id in order and order[n.func.id] > order[f.name] \
+                    and n.func.id not in numeric:
+                out.add("fn-forward-call-return-type")
     # a function defined ABOVE the RGBLed it drives: .on() / .off() / .blink() / .toggle() are then translated as Led methods
     rgb_line = {}
     for st in tree.body:
@@ -1600,12 +1653,6 @@ def shapes_of(src: str):
     for n in ast.walk(tree):
         if isinstance(n, (ast.For, ast.comprehension)) and not (isinstance(n.iter, ast.Call) and isinstance(n.iter.func, ast.Name) and n.iter.func.id == "range"):
             out.add("for-not-range")
-        if isinstance(n, ast.Constant) and isinstance(n.value, str) and not n.value.isprintable():
-            out.add("non-printable-literal")
-        if isinstance(n, ast.BinOp) and isinstance(n.op, ast.Pow):
-            out.add("pow")
-        if isinstance(n, ast.AugAssign) and isinstance(n.op, ast.Pow):
-            out.add("pow")
         if isinstance(n, ast.ExceptHandler) and n.type is not None:
             out.add("named-except")
         if isinstance(n, ast.BinOp) and isinstance(n.op, ast.Add) and _is_strlit(n.left) and _is_strlit(n.right):
@@ -1618,6 +1665,100 @@ def shapes_of(src: str):
             out.add("reserved-name")
         if isinstance(n, ast.FunctionDef) and (n.name in CPP_RESERVED or n.name in ARDUINO_NAMES):
             out.add("reserved-name")
+    return out
+
+
+_INT_CALLS = {"int", "len", "analog_read", "digital_read", "millis"}
+_INT_ARITH = (ast.Add, ast.Sub, ast.Mult, ast.FloorDiv, ast.Mod, ast.BitAnd, ast.BitOr, ast.BitXor, ast.LShift, ast.RShift)
+
+
+def _numeric_expr(e, names, fns):
+    """conservative: True only if the expression evidently denotes an int (not a bool, not a float)"""
+    if isinstance(e, ast.Constant):
+        return isinstance(e.value, int) and not isinstance(e.value, bool)
+    if isinstance(e, ast.Name):
+        return e.id in names
+    if isinstance(e, ast.BinOp):
+        return isinstance(e.op, _INT_ARITH) and _numeric_expr(e.left, names, fns) and _numeric_expr(e.right, names, fns)
+    if isinstance(e, ast.UnaryOp):
+        return isinstance(e.op, (ast.USub, ast.UAdd, ast.Invert)) and _numeric_expr(e.operand, names, fns)
+    if isinstance(e, ast.IfExp):
+        return _numeric_expr(e.body, names, fns) and _numeric_expr(e.orelse, names, fns)
+    if isinstance(e, ast.Call) and isinstance(e.func, ast.Name) and not e.keywords:
+        if e.func.id in ("abs", "min", "max"):
+            return bool(e.args) and all(_numeric_expr(a, names, fns) for a in e.args)
+        return e.func.id in _INT_CALLS or e.func.id in fns
+    return False
+
+
+def _numeric_names(body_nodes, start, fns):
+    """names whose EVERY assignment among the given statements is evidently an int (fixpoint)"""
+    assigns = {}
+    for st in body_nodes:
+        for n in ast.walk(st):
+            if isinstance(n, ast.Assign):
+                for tg in n.targets:
+                    if isinstance(tg, ast.Name):
+                        assigns.setdefault(tg.id, []).append(n.value)
+                    else:
+                        for m in ast.walk(tg):
+                            if isinstance(m, ast.Name) and isinstance(m.ctx, ast.Store):
+                                assigns.setdefault(m.id, []).append(None)
+            elif isinstance(n, ast.AugAssign) and isinstance(n.target, ast.Name):
+                assigns.setdefault(n.target.id, []).append(n.value)
+            elif isinstance(n, (ast.For, ast.comprehension)) and isinstance(n.target, ast.Name):
+                assigns.setdefault(n.target.id, []).append(ast.Constant(0))
+    names = set(start) | set(assigns)
+    changed = True
+    while changed:
+        changed = False
+        for nm, vals in assigns.items():
+            if nm in names and not all(v is not None and _numeric_expr(v, names, fns) for v in vals):
+                names.discard(nm)
+                changed = True
+    return names
+
+
+def _evidently_numeric_functions(tree, fdefs):
+    """user functions every return value of which is evidently an int (or that return nothing)"""
+    fns = {f.name for f in fdefs}
+    top = [st for st in tree.body if not isinstance(st, ast.FunctionDef)]
+    changed = True
+    while changed:
+        changed = False
+        glob = _numeric_names(top, [], fns)
+        for f in fdefs:
+            if f.name not in fns:
+                continue
+            params = [a.arg for a in f.args.args if isinstance(a.annotation, ast.Name) and a.annotation.id == "int"]
+            local_assigned = {m.id for n in ast.walk(f) for m in ast.walk(n) if isinstance(m, ast.Name) and isinstance(m.ctx, ast.Store)}
+            names = _numeric_names(f.body, params, fns) | (glob - local_assigned - {a.arg for a in f.args.args})
+            rets = [n.value for n in ast.walk(f) if isinstance(n, ast.Return) and n.value is not None]
+            if not all(_numeric_expr(v, names, fns) for v in rets):
+                fns.discard(f.name)
+                changed = True
+    return fns
+
+
+def repaired_region(src: str):
+    """-> feature counts of the region the guards of the repaired findings used to exclude (measured, for the distribution):
+    calls of a function defined further down, measure_distance() inside a function, string constants with control characters"""
+    out = Counter()
+    try:
+        tree = ast.parse(src)
+    except SyntaxError:
+        return out
+    fdefs = [n for n in tree.body if isinstance(n, ast.FunctionDef)]
+    order = {f.name: i for i, f in enumerate(fdefs)}
+    for f in fdefs:
+        for n in ast.walk(f):
+            if isinstance(n, ast.Call) and isinstance(n.func, ast.Attribute) and n.func.attr == "measure_distance":
+                out["measure_distance() inside a function"] += 1
+            if isinstance(n, ast.Call) and isinstance(n.func, ast.Name) and n.func.id in order and order[n.func.id] > order[f.name]:
+                out["call of a function defined further down"] += 1
+    for n in ast.walk(tree):
+        if isinstance(n, ast.Constant) and isinstance(n.value, str) and not n.value.isprintable():
+            out["string constant with a control character"] += 1
     return out
 
 
